@@ -1,5 +1,20 @@
 import Goyang.Model.Process
 import Goyang.Spec.Deviate
+/-
+Lemmas for C08 (deviations).  Sections:
+  1. trees: what `updateAt` / `removeAt` leave alone (`getAt_updateAt_frame`, `getAt_removeAt_frame`, …);
+  2. `applyOneDeviate` rewritten as a pipeline of stages (`staged`, equal by `rfl`), the abstraction
+     `propsOf` / `stmtOf`, and every stage against RFC 7950 §7.20.3.2 (`staged_errs`, `staged_effect`,
+     `staged_untouched`);
+  3. `applyDeviations` with its two folds named (`innerStep`, `outerStep`), the target node as a left
+     fold (`nodeFold`), frame and target invariants of one deviation, `nodeFold_seq` (= `Spec.deviateSeq`);
+  4. the path lookup's frame (`walkParts_frame`, `find_frame`), all deviations of one module
+     (`applyDeviations_frame'`, `applyDeviations_reports`), the stage of `processAll`
+     (`processAll_cases`, `processAll_clean`, `stage_frame`, `stage_reports`);
+  5. errors recorded at conversion time (`toEntry_deviation_errs`).
+-/
+set_option linter.unusedSimpArgs false
+set_option linter.unusedVariables false
 
 namespace Goyang.Lemmas.Deviate
 open Goyang.Model Goyang.Spec.Deviate
@@ -2063,5 +2078,94 @@ theorem processAll_clean (reg : Registry) (opts : Opts) (plug : Plug) (h : (proc
     | cons a t =>
       rw [hs] at h
       exact absurd h (canonErrs_ne_nil (by simp))
+
+
+/-! ### errors detected when the deviating module is converted -/
+
+theorem errors_importErrors (e c : Entry) (h : e.d.errors ≠ [] ∨ c.d.errors ≠ []) : (e.importErrors c).d.errors ≠ [] := by
+  cases e; cases c
+  simp only [Entry.importErrors, Entry.addErrs, Entry.withD, Entry.d] at h ⊢
+  intro hn
+  simp only [List.append_eq_nil_iff] at hn
+  rcases h with h | h
+  · exact h hn.1
+  · exact h hn.2.1.1.1
+
+theorem errors_addErr (e : Entry) (x : Err) : (e.addErr x).d.errors ≠ [] := by
+  cases e; simp [Entry.addErr, Entry.withD, Entry.d]
+
+/-- A fold whose step never loses recorded errors and records one at a bad element ends with errors. -/
+theorem foldl_errs_ne_nil {σ} (G : Entry × σ → Stmt → Entry × σ) (bad : Stmt → Prop)
+    (hmono : ∀ acc dv, acc.1.d.errors ≠ [] → (G acc dv).1.d.errors ≠ [])
+    (hbad : ∀ acc dv, bad dv → (G acc dv).1.d.errors ≠ []) :
+    ∀ (l : List Stmt) (acc : Entry × σ), (acc.1.d.errors ≠ [] ∨ ∃ dv ∈ l, bad dv) → (l.foldl G acc).1.d.errors ≠ [] := by
+  intro l
+  induction l with
+  | nil => intro acc h; rcases h with h | ⟨_, h, _⟩; exact h; cases h
+  | cons a l ih =>
+    intro acc h
+    simp only [List.foldl_cons]
+    apply ih
+    rcases h with h | ⟨dv, hm, hb⟩
+    · exact Or.inl (hmono acc a h)
+    · rcases List.mem_cons.mp hm with rfl | hm
+      · exact Or.inl (hbad acc dv hb)
+      · exact Or.inr ⟨dv, hm, hb⟩
+
+/-- **Unknown deviate kind (and any error of a deviate entry) is recorded on the deviation entry.**
+Converting a `deviation` statement that has a `deviate` substatement whose argument is not one of
+the four kinds, or whose entry carries an error (e.g. a replacement type that does not resolve),
+yields an entry with a recorded error — for every fuel, scope and conversion state. -/
+theorem toEntry_deviation_errs (env : Env) (fuel : Nat) (root : Mod) (scope : List Stmt) (n : Stmt) (visiting : List NodeId)
+    (st : TState) (hkw : n.kw = "deviation")
+    (h : ∃ ds ∈ n.all "deviate", deviateKinds.contains ds.arg = false ∨
+      ∀ st', (toEntry env (fuel - 1) root (n :: scope) ds visiting st').1.d.errors ≠ []) :
+    (toEntry env fuel root scope n visiting st).1.d.errors ≠ [] := by
+  cases fuel with
+  | zero => simp [toEntry, errorEntry, Entry.d]
+  | succ fuel =>
+    simp only [Nat.add_sub_cancel] at h
+    unfold toEntry
+    simp only [hkw]
+    simp (config := { decide := true }) only [show ("deviation" == "module") = false by decide,
+      show ("deviation" == "submodule") = false by decide,
+      show ("deviation" == "grouping") = false by decide, show ("deviation" == "leaf") = false by decide,
+      show ("deviation" == "leaf-list") = false by decide, show ("deviation" == "uses") = false by decide,
+      show ("deviation" == "list") = false by decide, show ("deviation" == "choice") = false by decide,
+      Bool.or_self, Bool.false_eq_true, if_false, fieldOrder, List.foldl_cons, List.foldl_nil, Bool.false_and]
+    have hfold := foldl_errs_ne_nil
+      (fun (acc : Entry × TState) dv =>
+        (if deviateKinds.contains dv.arg = true then
+            acc.fst.importErrors (toEntry env fuel root (n :: scope) dv visiting acc.snd).fst
+          else
+            (acc.fst.importErrors (toEntry env fuel root (n :: scope) dv visiting acc.snd).fst).addErr
+              (Err.at_ n "deviate-unknown-kind"),
+          (toEntry env fuel root (n :: scope) dv visiting acc.snd).snd))
+      (fun ds => deviateKinds.contains ds.arg = false ∨
+        ∀ st', (toEntry env fuel root (n :: scope) ds visiting st').1.d.errors ≠ [])
+      (by
+        intro acc dv hacc
+        simp only
+        split
+        · exact errors_importErrors _ _ (Or.inl hacc)
+        · exact errors_addErr _ _)
+      (by
+        intro acc dv hb
+        simp only
+        split
+        · next hc =>
+          rcases hb with hb | hb
+          · rw [hb] at hc; cases hc
+          · exact errors_importErrors _ _ (Or.inr (hb acc.2))
+        · exact errors_addErr _ _)
+      (n.all "deviate")
+      (Entry.mk { name := n.arg, kind := kindOfKw "deviation", node := n, nodeMod := root.seq, nodeKw := "deviation" } [] [] [], st)
+      (Or.inr h)
+    split
+    · next v => 
+      generalize (List.foldl _ _ (n.all "deviate")) = r at hfold ⊢
+      obtain ⟨e, s⟩ := r
+      cases e; exact hfold
+    · exact hfold
 
 end Goyang.Lemmas.Deviate
